@@ -368,6 +368,12 @@ def encode_answer(c, o, a, must_ok_for_own=True):
     for ch in 'abc':
         sy(ch)
     X = a['parsed']
+    # answers that parse but use symbols of several characters (e.g. a keyword name put in the alphabet line) are outside
+    # the model's word representation: not decided here (C17 covers what the parser makes of them)
+    if isinstance(X, dict) and 'Sigma' in X and 'R' not in X and any(len(sx) != 1 or sx not in 'abc' for sx in X['Sigma']):
+        return '0'
+    if isinstance(X, dict) and 'delta' in X and 'eps' in X and any(len(e[1]) != 1 and e[1] != X['eps'] for e in X['delta']):
+        return '0'
     if ex in ('words_dfa', 'words_nfa', 'words_re'):
         words = _words(_parse_word_list(info['words']), sy)
         if ex == 'words_dfa':
